@@ -645,3 +645,83 @@ func stripObj(path string) string {
 	}
 	return out
 }
+
+// LenCheck is a comparison `len(P) < K` (normalised: a message needs len(P) >= L to pass).
+type LenCheck struct {
+	Fn   string
+	Pos  token.Pos
+	Path string
+	L    int
+	Expr string
+}
+
+// E6dLenChecks lists the minimum-length tests of the selected packages.
+func (p *Prog) E6dLenChecks(rels func(rel string) bool) []LenCheck {
+	var out []LenCheck
+	for _, pk := range p.SubjectPkgs() {
+		rel, _ := Rel(pk.PkgPath)
+		if !rels(rel) {
+			continue
+		}
+		c := &e6dCtx{p: p, pk: pk, info: pk.TypesInfo}
+		for _, file := range p.SubjectFiles(pk) {
+			for _, d := range file.Decls {
+				fd, ok := d.(*ast.FuncDecl)
+				if !ok || fd.Body == nil {
+					continue
+				}
+				name := fd.Name.Name
+				if fd.Recv != nil && len(fd.Recv.List) > 0 {
+					name = "(" + types.ExprString(fd.Recv.List[0].Type) + ")." + name
+				}
+				relName := rel
+				if relName == "" {
+					relName = "mangos"
+				}
+				full := relName + "." + name
+				ast.Inspect(fd.Body, func(n ast.Node) bool {
+					be, ok := n.(*ast.BinaryExpr)
+					if !ok {
+						return true
+					}
+					l, r, op := be.X, be.Y, be.Op
+					if _, ok := c.lenOf(l); !ok {
+						if _, ok2 := c.lenOf(r); ok2 {
+							l, r = r, l
+							switch op {
+							case token.LSS:
+								op = token.GTR
+							case token.GTR:
+								op = token.LSS
+							case token.LEQ:
+								op = token.GEQ
+							case token.GEQ:
+								op = token.LEQ
+							}
+						}
+					}
+					path, ok := c.lenOf(l)
+					if !ok {
+						return true
+					}
+					k, ok := c.constInt(r)
+					if !ok {
+						return true
+					}
+					L := -1
+					switch op {
+					case token.LSS: // len < K rejects => needs len >= K
+						L = k
+					case token.LEQ:
+						L = k + 1
+					}
+					if L > 0 {
+						out = append(out, LenCheck{Fn: full, Pos: be.Pos(), Path: path, L: L, Expr: types.ExprString(be)})
+					}
+					return true
+				})
+			}
+		}
+	}
+	return out
+}
